@@ -740,3 +740,29 @@ func toInt(v any) int {
 
 // tierCfg returns "<base>_quick.cfg" or "<base>_thorough.cfg".
 func (c *Ctx) TierCfg(base string) string { return base + "_" + c.Tier + ".cfg" }
+
+// Apalache runs `apalache-mc check <args> <module>` on a copy of spec/apalache and reports
+// whether the obligation was discharged (EXITCODE: OK).
+func (c *Ctx) Apalache(module string, args ...string) bool {
+	tlcMu.Lock()
+	tlcSeq++
+	n := tlcSeq
+	tlcMu.Unlock()
+	dir := filepath.Join(c.Work, fmt.Sprintf("apa%d", n))
+	must(os.MkdirAll(dir, 0o755))
+	ents, _ := os.ReadDir(filepath.Join(VerifRoot, "spec", "apalache"))
+	for _, e := range ents {
+		b, err := os.ReadFile(filepath.Join(VerifRoot, "spec", "apalache", e.Name()))
+		if err == nil {
+			os.WriteFile(filepath.Join(dir, e.Name()), b, 0o644)
+		}
+	}
+	full := append(append([]string{"check"}, args...), module)
+	r := Run(RunOpts{Dir: dir, Timeout: 10 * time.Minute}, "apalache-mc", full...)
+	ok := strings.Contains(r.Stdout+r.Stderr, "EXITCODE: OK")
+	c.Add("obligations", 1)
+	if ok {
+		c.Add("discharged", 1)
+	}
+	return ok
+}
